@@ -863,26 +863,30 @@ def run_obj(case):
 
 # ------------------------------------------------------------------ processing_order (kind 10)
 def run_proc(mode, items):
-    """Rdataset.processing_order() with random.shuffle replaced by an in-place reversal (the model's
-    shuffle parameter instantiated the same way)"""
+    """Rdataset.processing_order() with random.shuffle replaced by an in-place reversal and
+    random.uniform(a, b) by a (mode 2) or b (mode 3): the model's parameters instantiated alike"""
     import random as _random
 
     if mode == 1:
         rds = dns.rdataset.Rdataset(IN, dns.rdatatype.MX)
-        objs = [dns.rdata.from_text("IN", "MX", f"{p} h{i}.") for p, i in items]
+        objs = [dns.rdata.from_text("IN", "MX", f"{p} h{i}.") for p, i, w in items]
+    elif mode in (2, 3):
+        rds = dns.rdataset.Rdataset(IN, dns.rdatatype.SRV)
+        objs = [dns.rdata.from_text("IN", "SRV", f"{p} {w} 80 h{i}.") for p, i, w in items]
     else:
         rds = dns.rdataset.Rdataset(IN, dns.rdatatype.A)
-        objs = [dns.rdata.from_text("IN", "A", f"10.0.{i // 256}.{i % 256}") for p, i in items]
+        objs = [dns.rdata.from_text("IN", "A", f"10.0.{i // 256}.{i % 256}") for p, i, w in items]
     ids = {}
-    for (p, i), o in zip(items, objs):
+    for (p, i, w), o in zip(items, objs):
         rds.add(o)
         ids[id(o)] = i
-    saved = _random.shuffle
+    saved = _random.shuffle, _random.uniform
     _random.shuffle = lambda l: l.reverse()
+    _random.uniform = (lambda a, b: a) if mode == 2 else (lambda a, b: b)
     try:
         out = rds.processing_order()
     finally:
-        _random.shuffle = saved
+        _random.shuffle, _random.uniform = saved
     return [ids[id(o)] for o in out]
 
 
@@ -1377,7 +1381,7 @@ def _cases(ctx):
     for _ in range(ctx.n(200, 1500)):
         n = rng.choice([0, 1, 2, 3, 5, 8])
         ids_ = rng.sample(range(200), n)
-        yield "procorder", [10, rng.randrange(2), [[rng.choice([0, 5, 10, 10, 20, 65535]), i] for i in ids_]]
+        yield "procorder", [10, rng.randrange(4), [[rng.choice([0, 5, 10, 10, 20, 65535]), i, rng.choice([0, 0, 1, 5, 100])] for i in ids_]]
     # ---- __getstate__ / __setstate__ (copy, pickle) and replace()
     for _ in range(ctx.n(200, 1500)):
         yield "getstate", gen_obj_case(rng)
@@ -1966,11 +1970,11 @@ def oracle(ctx, kind, case, out):
     elif k == 7:
         oracle_canon(case, out, fail)
     elif k == 10:
-        want = sorted(i for _, i in case[2])
+        want = sorted(i for _, i, _ in case[2])
         if sorted(out) != want:
             fail("processing_order is not a rearrangement of the members", sig="procorder")
-        if case[1] == 1:
-            pr = {i: p for p, i in case[2]}
+        if case[1] in (1, 2, 3):
+            pr = {i: p for p, i, _ in case[2]}
             if any(pr[a] > pr[b] for a, b in zip(out, out[1:])):
                 fail("processing_order of a prioritised type is not in priority order", sig="procorder")
     elif k == 8:
